@@ -424,8 +424,56 @@ def axis_invariance(ctx):
             rep.bad("C28.R6", C, v.node, f"branch `{test}`: {v.msg} under scaling of the URDF axis", f"{URDF}:{getattr(v.node, 'lineno', '?')}")
 
 
+def requested_coordinate_verbatim(ctx, rule="C28.R14"):
+    """"reports the requested joint coordinates": Revolute reports angle0 + accumulated rotation, so the importer has to hand over the
+    requested angle unchanged.  The rotation built from it is 2 pi periodic - poses and constraints cannot tell a wrapped angle from the
+    request, only the reported coordinate can.  K1 reaching definitions at the store `kwargs_joint["angle0"] = <x>`."""
+    from ..cfg import CFG
+    from ..dataflow import ReachingDefs
+    rep = ctx.rep
+    fn = ctx.repo.get(URDF, "joint_kinematics")
+    C = f"{URDF}:joint_kinematics"
+    cfg = CFG(fn)
+    rd = ReachingDefs(cfg)
+    stores = [n for n in cfg.nodes if n.kind == "stmt" and isinstance(n.ast, ast.Assign) and len(n.ast.targets) == 1 and isinstance(n.ast.targets[0], ast.Subscript)
+              and isinstance(n.ast.targets[0].slice, ast.Constant) and n.ast.targets[0].slice.value in ("angle0",)]
+    if not stores:
+        rep.ok(rule, C, "no hand-off of angle0 found (no verdict)", verdict="unknown", trivial=True)
+        return
+    CONV = {"float", "float64", "asarray", "asanyarray", "array", "squeeze", "item"}
+
+    def verbatim(e, node, depth=0):
+        """None if e is the request / a default / a conversion of those; else the offending sub-expression"""
+        if depth > 6:
+            return e
+        if isinstance(e, ast.Constant) and isinstance(e.value, (int, float)):
+            return None
+        if isinstance(e, ast.Subscript) and isinstance(e.value, ast.Name) and e.value.id in ("configuration", "velocities"):
+            return None
+        if isinstance(e, ast.Call) and (dotted(e.func) or "").split(".")[-1] in CONV and len(e.args) == 1:
+            return verbatim(e.args[0], node, depth + 1)
+        if isinstance(e, ast.Name):
+            for d in rd.defs_reaching(node, e.id):
+                if d.kind != "stmt" or not isinstance(d.ast, ast.Assign):
+                    return e
+                r = verbatim(d.ast.value, d, depth + 1)
+                if r is not None:
+                    return r
+            return None
+        return e
+    for st in stores:
+        bad = verbatim(st.ast.value, st)
+        if bad is None:
+            rep.ok(rule, C, f"`{norm_src(st.ast)}`: every reaching definition is the requested coordinate, its default or a conversion")
+        else:
+            rep.bad(rule, C, getattr(bad, "_stmt", None) or st.ast, f"the coordinate handed to the joint (`{norm_src(st.ast)}`) can come from `{norm_src(bad)[:70]}`, which is not the requested value: the joint "
+                    "reports another coordinate than requested (a wrapped angle differs by whole turns) although poses and constraints are satisfied", f"{URDF}:{getattr(bad, 'lineno', st.lineno)}")
+
+
 def run(ctx):
     rep = ctx.rep
+    rep.rule("C28.R14", "the joint coordinate handed to the joint object (angle0 of revolute / continuous joints) is the requested value itself: every definition that reaches the hand-off is the request, its default or a type conversion - no wrapping, offset or scaling", 1)
+    requested_coordinate_verbatim(ctx)
     rep.rule("C28.R1", "joint constructor conformance per branch", 4)
     rep.rule("C28.R2", "definite assignment of joint_kinematics' outputs", 6)
     rep.rule("C28.R3", "class-level calls resolve", 2)
@@ -678,4 +726,13 @@ MUTANTS += [
 MUTANTS += [
     dict(id="c28-r13-seed", canary=True, what="[seeded by sub-agent] RigidBody.q2pose skips the quaternion normalisation", file="cardillo/discrete/rigid_body.py",
          old="        return q[:3], Exp_SO3_quat(q[3:])\n", new="        return q[:3], Exp_SO3_quat(q[3:], normalize=False)\n", expect="C28.R13"),
+]
+
+MUTANTS += [
+    dict(id="c28-r14-seed", canary=True, what="[seeded by sub-agent] continuous joints: requested angle wrapped into (-pi, pi] before it is handed to Revolute", file=URDF,
+         old='        kwargs_joint["angle0"] = angle\n', new='        if joint.type == "continuous":\n            angle = np.arctan2(np.sin(angle), np.cos(angle))\n        kwargs_joint["angle0"] = angle\n', expect="C28.R14"),
+]
+NEUTRAL += [
+    dict(id="c28-n-r14", canary=True, what="revolute branch: requested angle read through np.float64", file=URDF,
+         old="            angle = float(configuration[joint.name])\n", new="            angle = np.float64(configuration[joint.name])\n"),
 ]
